@@ -225,7 +225,12 @@ def oracle(case):
         # grouped_terms() / activation_degree()
         with np.errstate(all="ignore"):
             A, pool = build(case, row)
-            gt = A.grouped_terms()
+            try:
+                gt = A.grouped_terms()
+                for t in pool.values():
+                    A.activation_degree(t)
+            except Exception as ex:  # noqa: BLE001
+                return False, f"row {b}: grouped_terms() / activation_degree() raises {type(ex).__name__}: {ex}"
             gs = grouped(case, b)
             if [n for n, _ in gs] != list(gt.keys()):
                 return False, f"row {b}: grouped_terms() keys {list(gt.keys())}, expected first-occurrence order {[n for n, _ in gs]}"
@@ -370,8 +375,11 @@ def fragile(case):
         for b in range(batch_size(case)):
             row = b if is_batch(case) or any(isinstance(c, list) for c in case.get("inputs") or []) else None
             with np.errstate(all="ignore"):
-                A, _ = build(case, row)
-                gt = A.grouped_terms()
+                try:
+                    A, _ = build(case, row)
+                    gt = A.grouped_terms()
+                except Exception:  # noqa: BLE001  (reported by the comparison, not here)
+                    return False
             for n, w in grouped(case, b):
                 if n in sing:
                     wf = Fr(float(np.asarray(gt[n].degree).ravel()[0]))
@@ -472,7 +480,11 @@ def correspond(ctx):
                     for b in range(B):
                         row = b if is_batch(case) or any(isinstance(c, list) for c in case.get("inputs") or []) else None
                         A, _ = build(case, row)
-                        got = [(k, float(np.asarray(g.degree).ravel()[0])) for k, g in A.grouped_terms().items()]
+                        try:
+                            got = [(k, float(np.asarray(g.degree).ravel()[0])) for k, g in A.grouped_terms().items()]
+                        except Exception as ex:  # noqa: BLE001
+                            what = f"row {b}: grouped_terms() raises {type(ex).__name__}: {ex}"
+                            break
                         mg = C.parse_sx(groups[b]) if groups[b] != "()" else []
                         if [k for k, _ in got] != [g[0] for g in mg] or any(
                                 not C.close(d, C.parse_x(g[1])) for (_, d), g in zip(got, mg)):
